@@ -1213,6 +1213,25 @@ class RawAlgorithmsMixIn:
 
         (xbar_data, ybar_data) = out
 
+        if x_data.ndim > 4 or y_data.ndim > 4:
+            # operands of rank >= 3: numpy.dot contracts the last axis of x with the second-to-last axis of y
+            # (the only axis of a vector y); the adjoints are the matching tensor contractions, convolved in the degree
+            D,P = x_data.shape[:2]
+            rx, ry = x_data.ndim - 2, y_data.ndim - 2
+            ky = 0 if ry == 1 else ry - 2
+            na = rx - 1
+            for p in range(P):
+                for d in range(D):
+                    for c in range(d+1):
+                        zb = zbar_data[c,p]
+                        # y with its contraction axis moved to the end: (b..., m, K)
+                        ym = numpy.moveaxis(y_data[d-c,p], ky, -1)
+                        xbar_data[d,p] += numpy.tensordot(zb, ym, axes=(list(range(na, zb.ndim)), list(range(ry-1))))
+                        # contract the leading axes a... of x with those of zbar: (K, b..., m)
+                        tmp = numpy.tensordot(x_data[c,p], zbar_data[d-c,p], axes=(list(range(na)), list(range(na))))
+                        ybar_data[d,p] += numpy.moveaxis(tmp, 0, ky)
+            return out
+
         if x_data.ndim == 3 or y_data.ndim == 3:
             # vector operands: treat x as a row matrix and y as a column matrix
             D,P = x_data.shape[:2]
